@@ -56,6 +56,10 @@ def run(ctx):
     gate_ = RowGate(ctx)
     check_spine_gate(ctx, 'R11', gate_)
     check_category_gate(ctx, 'R11', gate_)
+    # the signifiers of a note are written as a SET: besides the category predicate nothing may drop one of them - a filter that
+    # looks at the list in written order ("keep the first stem") makes the normal form depend on the order they were written in
+    from . import c05 as _c05
+    _c05.check_no_extra_subtoken_filters(ctx, 'R12')
     # every token reaches the text through the tokenizer of the requested encoding (no raw-text bypass): canonical order and
     # de-duplication are properties of that path
     from . import c04
